@@ -324,7 +324,8 @@ def history_sampling_search(ctx):
     cases = [("Stable", dict(alpha=1.5), [("alpha", 0.8)]), ("Rational", {}, [("dim", None)]), ("Spherical", {}, [("dim", None)]),
              ("Exponential", {}, [("rescale", 3.0)]), ("Matern", dict(nu=1.5), [("nu", 0.7), ("rescale", 0.5)]),
              ("Gaussian", {}, [("len_scale", 4.5)]), ("Stable", dict(alpha=1.2), [("rescale", 2.0), ("len_scale", 1.5)]),
-             ("Cubic", {}, [("dim", None), ("len_scale", 3.0)]), ("TPLStable", {}, [("hurst", 0.8)])]
+             ("Cubic", {}, [("dim", None), ("len_scale", 3.0)]), ("TPLStable", {}, [("hurst", 0.8)]),
+             ("Gaussian", {}, [("anis", 0.4)]), ("Exponential", {}, [("angles", 0.9), ("anis", 2.5)]), ("Matern", dict(nu=1.2), [("len_scale_list", None)])]
     with warnings.catch_warnings():
         warnings.simplefilter("ignore")
         for gen in ("RandMeth", "Fourier"):
@@ -335,9 +336,18 @@ def history_sampling_search(ctx):
                 d1 = [d for d in (1, 2, 3) if d != d0 and (gen != "Fourier" or d < 3)][int(rng.randint(0, 1 if gen == "Fourier" else 2))]
                 model = getattr(gs, name)(dim=d0, len_scale=2.0, **kw)
                 gk = dict(mode_no=32) if gen == "RandMeth" else dict(mode_no=[8] * d0, period=[16.0] * d0)
+                geom = any(c[0] in ("anis", "angles", "len_scale_list") for c in changes)
+                if geom and d0 == 1:
+                    d0 = 2
+                    model = getattr(gs, name)(dim=d0, len_scale=2.0, **kw)
+                    gk = dict(mode_no=32) if gen == "RandMeth" else dict(mode_no=[8] * d0, period=[16.0] * d0)
                 srf = gs.SRF(model, generator=gen, seed=11, **gk)
-                srf(rng.rand(d0, 3) * 5)
+                P0 = rng.rand(d0, 3) * 5
+                srf(P0)
                 for attr, val in changes:
+                    if attr == "len_scale_list":
+                        srf.model.len_scale = [3.0] + [1.2] * (d0 - 1)
+                        continue
                     if attr == "dim":
                         if gen == "Fourier":
                             continue            # period / mode_no are per dimension
@@ -345,13 +355,21 @@ def history_sampling_search(ctx):
                     else:
                         setattr(srf.model, attr, val)
                 dn = int(srf.model.dim)
-                srf(rng.rand(dn, 3) * 5)
+                P1 = P0 if dn == d0 else rng.rand(dn, 3) * 5
+                live_field = srf() if dn == d0 else srf(P1)        # same dimension: evaluated on the STORED positions
                 fkw = {o: getattr(srf.model, o) for o in srf.model.opt_arg}
-                fresh_model = getattr(gs, name)(dim=dn, var=srf.model.var, len_scale=srf.model.len_scale, rescale=srf.model.rescale, **fkw)
+                fresh_model = getattr(gs, name)(dim=dn, var=srf.model.var, len_scale=srf.model.len_scale, rescale=srf.model.rescale,
+                                                anis=srf.model.anis, angles=srf.model.angles, **fkw)
                 gk2 = dict(mode_no=32) if gen == "RandMeth" else dict(mode_no=[8] * dn, period=[16.0] * dn)
                 fresh = gs.SRF(fresh_model, generator=gen, seed=11, **gk2)
-                fresh(rng.rand(dn, 3) * 5)
+                fresh_field = fresh(P1)
                 ev += 1
+                if not np.allclose(live_field, fresh_field, rtol=1e-10, atol=1e-10):
+                    ch = "+".join(c[0] for c in changes)
+                    viol.append({"key": f"history-field:{gen}:{ch}",
+                                 "what": f"after the in-place change(s) {changes} of SRF({name}{kw}, generator={gen}) the field "
+                                         + ("on the stored positions " if dn == d0 else "") + "differs from a freshly built SRF with the resulting model and the same seed",
+                                 "case": dict(model=name, kw=kw, changes=[list(c) for c in changes], dim0=d0, dim1=dn, generator=gen)})
                 a, b = srf.generator, fresh.generator
                 if gen == "RandMeth":
                     same = a._cov_sample.shape == b._cov_sample.shape and np.array_equal(a._cov_sample, b._cov_sample)
